@@ -1,0 +1,26 @@
+//go:build verif
+
+package packet
+
+// Contracts for the verification machinery in /verif (comment-only file; no code).
+// Genesis round trip of the packet submodule (C13).
+
+// verif:func ExportGenesis
+//@ ensures [acks]        result.Acknowledgements == callres("GetAllPacketAcks", 0)
+//@ ensures [commitments] result.Commitments == callres("GetAllPacketCommitments", 0)
+//@ ensures [receipts]    result.Receipts == callres("GetAllPacketReceipts", 0)
+//@ ensures [sequences]   result.SendSequences == callres("GetAllPacketSendSeqs", 0)
+
+// verif:func InitGenesis
+//@ requires [validated-genesis] forall i int :: 0 <= i && i < len(gs.Acknowledgements) ==> gs.Acknowledgements[i].Data != nil
+//@ requires [validated-genesis2] forall i int :: 0 <= i && i < len(gs.Commitments) ==> gs.Commitments[i].Data != nil
+//@ modifies world(ctx)
+//@ callsite SetPacketAcknowledgement [ack-as-exported] srcChain == ack.SrcChain && dstChain == ack.DstChain && sequence == ack.Sequence && ackHash == ack.Data
+//@ loop 1 continue [each-ack-once] ncalls("SetPacketAcknowledgement") == 1
+//@ callsite SetPacketCommitment [commitment-as-exported] srcChain == commitment.SrcChain && dstChain == commitment.DstChain && sequence == commitment.Sequence && commitmentHash == commitment.Data
+//@ loop 2 continue [each-commitment-once] ncalls("SetPacketCommitment") == 1
+//@ callsite SetPacketReceipt [receipt-as-exported] srcChain == receipt.SrcChain && dstChain == receipt.DstChain && sequence == receipt.Sequence
+//@ loop 3 continue [each-receipt-once] ncalls("SetPacketReceipt") == 1
+//@ callsite SetNextSequenceSend [sequence-as-exported] srcChain == ss.SrcChain && dstChain == ss.DstChain && sequence == ss.Sequence
+//@ loop 4 continue [each-sequence-once] ncalls("SetNextSequenceSend") == 1
+//@ ensures [everything-imported] loopCompleted(1) && loopCompleted(2) && loopCompleted(3) && loopCompleted(4)
